@@ -76,6 +76,12 @@ def leak_sweep():
     use = "import \"reg.pn\";\nfn pass(o: &Owner, c: i32) -> i32\n{\n\treturn: c\n}\nfn main() -> u8\n{\n\tvar x: i32 = 42;\n\tprint!(x, \"\\n\");\n\treturn: 0\n}\n"
     single = reg + use.replace("import \"reg.pn\";\n", "")
     cases += [("w%d" % sw, single), ("w%d.o0" % sw, "//// module reg.pn\n%s//// module main.pn\n%s" % (reg, use)), ("w%d.o1" % sw, "//// module main.pn\n%s//// module reg.pn\n%s" % (use, reg))]; sw += 1
+    # private structures of one name (different members) in two modules are two structures (D58)
+    la = "struct %s\n{\n\ta: i32,\n\tb: i32,\n}\npub fn getb() -> i32\n{\n\tvar f = %s { a: 1, b: 2 };\n\treturn: f.b\n}\n"
+    lm = "struct %s\n{\n\tx: i64,\n\ty: i64,\n\tz: i64,\n}\nfn main() -> u8\n{\n\tvar g = %s { x: 1, y: 2, z: 3 };\n\tvar n: usize = |:%s|;\n\tprint!(getb(), \" \", g.z, \" \", n, \"\\n\");\n\treturn: 0\n}\n"
+    cases += [("w%d" % sw, la % ("FooA", "FooA") + lm % ("FooB", "FooB", "FooB")),
+              ("w%d.o0" % sw, "//// module a.pn\n%s//// module main.pn\nimport \"a.pn\";\n%s" % (la % ("Foo", "Foo"), lm % ("Foo", "Foo", "Foo"))),
+              ("w%d.o1" % sw, "//// module main.pn\nimport \"a.pn\";\n%s//// module a.pn\n%s" % (lm % ("Foo", "Foo", "Foo"), la % ("Foo", "Foo")))]; sw += 1
     return cases
 
 
